@@ -34,7 +34,7 @@ Section P6.
 
   Lemma ok2_pre (m : snode) : dict_node_ok2 m = true -> dict_pre V cf m = None /\ as_instance V cf m = false.
   Proof.
-    destruct m as [p sp|v|items|[cls ctor| |idx|o|cls ctor] ch asr]; simpl; intro H; try (split; reflexivity).
+    destruct m as [p sp|v|items|[cls ctor| |idx|o|uo|cls ctor] ch asr]; simpl; intro H; try (split; reflexivity).
     apply negb_true_iff in H. unfold dict_pre, as_instance. rewrite H. split; reflexivity.
   Qed.
 
@@ -65,7 +65,7 @@ Section P6.
         { intro b'. unfold ech, pchmap, cn_attrs, ren_attrs. rewrite !map_map. apply map_ext_in. intros [nm c] Hin. simpl.
           rewrite Forall_forall in IH. rewrite forallb_forall in Qc.
           pose proof (IH _ Hin (Qc _ Hin) b') as E0. simpl in E0. rewrite E0. reflexivity. }
-        destruct k as [cls ctor| |idx|o|cls ctor].
+        destruct k as [cls ctor| |idx|o|uo|cls ctor].
         + (* Model with free parameters *)
           cbn [dict_node_ok2] in Qn. apply negb_true_iff in Qn. cbn [dict_post]. rewrite Qn.
           cbn [erase]. rewrite !erase_children, E. cbn [ren cn]. rewrite ren_attrs_eq, cn_attrs_eq. reflexivity.
@@ -85,6 +85,9 @@ Section P6.
             cbn [pchmap map fst snd]. rewrite dict_post_bin.
             cbn [erase ren cn]. rewrite (Hl Ql false), (Hr Qr false). reflexivity.
           * destruct x as [xn xc]. reflexivity.
+        + (* unary form: the operand's attribute name is written ("name") and read back *)
+          unfold dict_post, rebuild_same. cbn [erase]. rewrite !erase_children, E.
+          destruct (ech V false ch) as [|[nm c] [|x t]]; reflexivity.
         + unfold dict_post, rebuild_same. cbn [erase]. rewrite !erase_children, E. cbn [ren cn].
           rewrite ren_attrs_eq, cn_attrs_eq. reflexivity.
     Qed.
@@ -92,7 +95,8 @@ Section P6.
 
   Lemma wf_ren (s : nat -> nat) (n : node) : wf V n -> wf V (ren V s n).
   Proof.
-    induction n as [q|c|ms IH|o ln rn l r IHl IHr|cls ctor attrs IH|attrs IH] using (node_ind' V); intro W.
+    induction n as [q|c|ms IH|o ln rn l r IHl IHr|uo unm uc IHc|cls ctor attrs IH|attrs IH] using (node_ind' V); intro W;
+      [| | | |exact (IHc W)| |].
     - exact I.
     - exact I.
     - cbn [ren wf]. rewrite ren_members_eq. destruct W as [ND W]. split.
